@@ -182,7 +182,7 @@ func (a *jwtAuthenticator) Execute(ctx heimdall.Context) (*subject.Subject, erro
 			CausedBy(err)
 	}
 
-	token, err := jwt.ParseSigned(jwtAd, supportedAlgorithms())
+	token, err := parseJWT(jwtAd)
 	if err != nil {
 		ec := errorchain.NewWithMessage(heimdall.ErrAuthentication, "failed to parse JWT").WithErrorContext(a)
 		if !hasJWSCompactForm(jwtAd) {
@@ -207,6 +207,57 @@ func (a *jwtAuthenticator) Execute(ctx heimdall.Context) (*subject.Subject, erro
 	}
 
 	return sub, nil
+}
+
+// maxJWTNestingDepth is the deepest nesting accepted in the JOSE header and in the claims set of a JWT.
+const maxJWTNestingDepth = 1000
+
+var errJWTNestingTooDeep = errors.New("JOSE header or claims set nested too deeply")
+
+// parseJWT parses a signed JWT in compact form. The JSON decoder used by go-jose recurses without any limit,
+// so a token with millions of nested arrays or objects in its header or its claims set would end the process
+// with a stack overflow (a fatal error, which cannot be recovered). Such tokens are rejected upfront.
+func parseJWT(value string) (*jwt.JSONWebToken, error) {
+	parts := strings.SplitN(value, ".", 3) //nolint:mnd
+	for idx := 0; idx < len(parts) && idx < 2; idx++ {
+		if len(parts[idx]) <= maxJWTNestingDepth {
+			continue
+		}
+
+		raw, err := base64.RawURLEncoding.DecodeString(strings.TrimRight(parts[idx], "="))
+		if err == nil && jsonNestingExceeds(raw, maxJWTNestingDepth) {
+			return nil, errJWTNestingTooDeep
+		}
+	}
+
+	return jwt.ParseSigned(value, supportedAlgorithms())
+}
+
+// jsonNestingExceeds tells whether the arrays and objects of the given JSON text are nested deeper than limit.
+func jsonNestingExceeds(data []byte, limit int) bool {
+	depth := 0
+	inString := false
+
+	for idx := 0; idx < len(data); idx++ {
+		switch char := data[idx]; {
+		case inString:
+			if char == '\\' {
+				idx++
+			} else if char == '"' {
+				inString = false
+			}
+		case char == '"':
+			inString = true
+		case char == '[' || char == '{':
+			if depth++; depth > limit {
+				return true
+			}
+		case char == ']' || char == '}':
+			depth--
+		}
+	}
+
+	return false
 }
 
 // hasJWSCompactForm tells whether value is structurally a signed JWT (three dot separated parts with a
